@@ -187,6 +187,29 @@ def correspond_remove(ck: Check, exhaustive_k: int, n_random: int):
         emulsion_case(ck, reqs, expect, drops, md, grid, {"gen": "random", "dim": dim}, case)
         if len(ck.samples) < 3:
             ck.sample(case)
+    # polydisperse traps: two LARGE droplets overlap each other, but the nearest centre of each is a tiny satellite that
+    # is well separated from it (nearest by centre is not nearest by surface); no grid, more than two droplets
+    for _ in range(max(6, n_random // 10)):
+        dim = rng.choice([1, 2, 3])
+        R1, R2 = rng.uniform(1.5, 3.0), rng.uniform(1.5, 3.0)
+        d = (R1 + R2) * rng.uniform(0.8, 0.97)
+        rs, gap = 0.05, rng.uniform(0.03, 0.1)
+        e0 = np.eye(dim)[0]
+        e1 = np.eye(dim)[1] if dim > 1 else -e0
+        A, B = np.zeros(dim), d * e0
+        if dim == 1:
+            sa, sb = A - (R1 + gap + rs) * e0, B + (R2 + gap + rs) * e0
+        else:
+            sa, sb = A + (R1 + gap + rs) * e1, B - (R2 + gap + rs) * e1
+        drops = [SphericalDroplet(A, R1), SphericalDroplet(sa, rs), SphericalDroplet(B, R2), SphericalDroplet(sb, rs)]
+        if rng.random() < 0.5:
+            drops = drops[::-1]
+        md = rng.choice([0.0, 0.0, -0.1])
+        case = {"kind": "polydisperse-trap", "dim": dim, "periodic": None, "bounds": None,
+                "droplets": [[x.position.tolist(), x.radius] for x in drops], "min_distance": md}
+        ck.case(("trap", dim, tuple(x.data.tobytes() for x in drops), md))
+        ck.count("polydisperse_traps")
+        emulsion_case(ck, reqs, expect, drops, md, None, {"gen": "trap", "dim": dim}, case)
     try:
         outs = run_driver(reqs)
     except RuntimeError as e:
@@ -216,6 +239,10 @@ def pairwise_checks(ck: Check, n_cases: int):
         grid = make_grid(dim, per, rng) if rng.random() < 0.6 else None
         n = rng.choice([0, 1, 2, 3, 5, 7])
         drops = [SphericalDroplet(np.array([rng.uniform(-2, 9) for _ in range(dim)]), rng.choice([0.0, 0.5, rng.uniform(0, 2)])) for _ in range(n)]
+        if n >= 2 and rng.random() < 0.3:
+            # two droplets with exactly coincident centres and different radii (not three: the k-d tree's answer is then ambiguous)
+            drops[1] = SphericalDroplet(drops[0].position.copy(), drops[0].radius + rng.uniform(0.3, 2))
+            ck.count("coincident_centres")
         em = Emulsion(drops)
         case = {"kind": "pairwise", "dim": dim, "periodic": per if grid is not None else None,
                 "bounds": [list(b) for b in grid.axes_bounds] if grid is not None else None,
